@@ -58,6 +58,20 @@ Arguments lookup {V} k d.
 Definition cell (v : str) (r : row) : option term :=
   match lookup v r with Some (Some t) => Some t | _ => None end.
 
+(* Python:  Variable(value): the empty string raises, one leading question mark is dropped *)
+Definition py_Variable (v : str) : option str :=
+  match v with
+  | [] => None
+  | c :: r => Some (if c =? 63 then r else v)
+  end.
+
+(* d[k] = v on an insertion-ordered dict *)
+Fixpoint dict_set {V} (k : str) (v : V) (d : list (str * V)) : list (str * V) :=
+  match d with
+  | [] => [(k, v)]
+  | (k', v') :: r => if str_eqb k k' then (k', v) :: r else (k', v') :: dict_set k v r
+  end.
+
 (* Python:  Literal(lex, datatype=dt, lang=lang)  for strings lex; None = TypeError.
    Lexical normalisation of recognised datatypes is NOT modelled here (property C09):
    the statement is about the triple (lex, dt, lang). *)
@@ -169,10 +183,13 @@ Fixpoint all_some {A} (l : list (option A)) : option (list A) :=
   | None :: _ => None
   end.
 
+(* for k, v in row.items(): outRow[Variable(k)] = parseJsonTerm(v) *)
 Definition json_row (j : json) : option prow :=
   match j with
-  | JObj l => all_some (map (fun kv => match parseJsonTerm (snd kv) with
-                                       | Some t => Some (fst kv, t) | None => None end) l)
+  | JObj l => fold_left (fun acc kv => match acc, py_Variable (fst kv), parseJsonTerm (snd kv) with
+                                       | Some d, Some k, Some t => Some (dict_set k t d)
+                                       | _, _, _ => None
+                                       end) l (Some [])
   | _ => None
   end.
 
@@ -183,6 +200,15 @@ Definition json_truthy (j : json) : bool :=
   | JObj l => match l with [] => false | _ => true end
   end.
 
+(* for x in value: a list gives its items, a dict its keys, a str its characters *)
+Definition py_iter (j : json) : option (list json) :=
+  match j with
+  | JArr l => Some l
+  | JObj l => Some (map (fun kv => JStr (fst kv)) l)
+  | JStr s => Some (map (fun c => JStr [c]) s)
+  | _ => None
+  end.
+
 (* JSONResult.__init__ *)
 Definition json_parse (j : json) : obs :=
   match jget k_boolean j with
@@ -191,16 +217,16 @@ Definition json_parse (j : json) : obs :=
     match jget k_results j with
     | None => OErr
     | Some res =>
-      match jget k_bindings res with
-      | Some (JArr rows) =>
+      match match jget k_bindings res with Some b => py_iter b | None => None end with
+      | Some rows =>
         match all_some (map json_row rows) with
         | None => OErr
         | Some prows =>
           match jget k_head j with
           | Some h =>
-            match jget k_vars h with
-            | Some (JArr vs) =>
-              match all_some (map (fun v => match v with JStr s => Some s | _ => None end) vs) with
+            match match jget k_vars h with Some v => py_iter v | None => None end with
+            | Some vs =>
+              match all_some (map (fun v => match v with JStr s => py_Variable s | _ => None end) vs) with
               | Some vars => OSel vars prows
               | None => OErr
               end
@@ -496,6 +522,134 @@ Definition xml_parse (d : xdoc) : obs :=
       | _, _ => OErr
       end
   end.
+
+(* --- the same reader over a generic element tree (the ElementTree view of ANY parsed document, not
+   only of those the writer produces): XMLResult.__init__ and parseTerm statement by statement --- *)
+Inductive pelem := PE (tag : str) (attrs : list (str * str)) (text : option str) (children : list pelem).
+Definition pe_tag (e : pelem) := match e with PE t _ _ _ => t end.
+Definition pe_attrs (e : pelem) := match e with PE _ a _ _ => a end.
+Definition pe_text (e : pelem) := match e with PE _ _ t _ => t end.
+Definition pe_children (e : pelem) := match e with PE _ _ _ c => c end.
+
+Definition ns_sparql := s2l "{http://www.w3.org/2005/sparql-results#}".
+Definition t_sparql := ns_sparql ++ s2l "sparql".
+Definition t_head := ns_sparql ++ s2l "head".
+Definition t_variable := ns_sparql ++ s2l "variable".
+Definition t_results := ns_sparql ++ s2l "results".
+Definition t_result := ns_sparql ++ s2l "result".
+Definition t_binding := ns_sparql ++ s2l "binding".
+Definition t_boolean := ns_sparql ++ s2l "boolean".
+Definition t_literal := ns_sparql ++ s2l "literal".
+Definition t_uri := ns_sparql ++ s2l "uri".
+Definition t_bnode := ns_sparql ++ s2l "bnode".
+Definition a_name := s2l "name".
+Definition a_datatype := s2l "datatype".
+Definition a_lang := s2l "{http://www.w3.org/XML/1998/namespace}lang".
+
+(* Element.find(tag) / findall(tag): direct children *)
+Fixpoint pe_find (tag : str) (l : list pelem) : option pelem :=
+  match l with
+  | [] => None
+  | e :: r => if str_eqb (pe_tag e) tag then Some e else pe_find tag r
+  end.
+Definition pe_findall (tag : str) (l : list pelem) : list pelem := filter (fun e => str_eqb (pe_tag e) tag) l.
+
+(* parseTerm(element) *)
+Definition xml_parseTerm_e (e : pelem) : option term :=
+  if str_eqb (pe_tag e) t_literal then
+    let text := match pe_text e with None => [] | Some t => t end in
+    match lookup a_datatype (pe_attrs e) with
+    | Some d => py_Literal text (Some d) None
+    | None => match nonempty (lookup a_lang (pe_attrs e)) with
+              | Some l => py_Literal text None (Some l)
+              | None => py_Literal text None None
+              end
+    end
+  else if str_eqb (pe_tag e) t_uri then Some (IRI (match pe_text e with Some t => t | None => [] end))
+  else if str_eqb (pe_tag e) t_bnode then
+    Some (BNode (match pe_text e with Some t => t | None => fresh_label end))
+  else None.
+
+(* for binding in result: ... r[Variable(binding.get("name"))] = parseTerm(binding[0]) *)
+Definition xml_result_row (result : pelem) : option prow :=
+  fold_left (fun acc b =>
+               match acc with
+               | None => None
+               | Some d =>
+                   if negb (str_eqb (pe_tag b) t_binding) then Some d
+                   else match lookup a_name (pe_attrs b), pe_children b with
+                        | Some n, child :: _ =>
+                            match py_Variable n, xml_parseTerm_e child with
+                            | Some v, Some t => Some (dict_set v t d)
+                            | _, _ => None
+                            end
+                        | _, _ => None
+                        end
+               end) (pe_children result) (Some []).
+
+Definition xml_reader (root : pelem) : obs :=
+  let kids := pe_children root in
+  match pe_find t_boolean kids with
+  | Some b =>
+      match pe_text b with
+      | None => OErr
+      | Some t => OAsk (str_eqb (py_strip (map ascii_lower t)) s_true)
+      end
+  | None =>
+      match pe_find t_results kids with
+      | None => OErr                                  (* ResultException *)
+      | Some results =>
+          match all_some (map xml_result_row (pe_findall t_result (pe_children results))),
+                all_some (map (fun x => match lookup a_name (pe_attrs x) with
+                                        | Some n => py_Variable n | None => None end)
+                              (flat_map (fun h => pe_findall t_variable (pe_children h)) (pe_findall t_head kids))) with
+          | Some rows, Some vars => OSel vars rows
+          | _, _ => OErr
+          end
+      end
+  end.
+
+(* the tree the XML parser builds from a written document: every string decoded *)
+Definition tree_of_pterm (p : pterm) : pelem :=
+  PE (match pk p with KUri => t_uri | KBnode => t_bnode | KLiteral => t_literal end)
+     ((match p_dt p with Some d => [(a_datatype, d)] | None => [] end)
+      ++ (match p_lang p with Some l => [(a_lang, l)] | None => [] end))
+     (p_text p) [].
+
+Definition xml_decode_bind (b : xbind) : option pelem :=
+  match xml_read_attr (fst b), xml_decode_term (snd b) with
+  | Some n, Some p => Some (PE t_binding [(a_name, n)] None [tree_of_pterm p])
+  | _, _ => None
+  end.
+
+Definition xml_decode_doc (d : xdoc) : option pelem :=
+  match d with
+  | XAsk text =>
+      match xml_read false text with
+      | Some t => Some (PE t_sparql [] None [PE t_head [] None [];
+                                            PE t_boolean [] (match t with [] => None | _ => Some t end) []])
+      | None => None
+      end
+  | XSel head results =>
+      match all_some (map xml_read_attr head),
+            all_some (map (fun r => all_some (map xml_decode_bind r)) results) with
+      | Some vars, Some rows =>
+          Some (PE t_sparql [] None
+                  [PE t_head [] None (map (fun v => PE t_variable [(a_name, v)] None []) vars);
+                   PE t_results [] None (map (fun r => PE t_result [] None r) rows)])
+      | _, _ => None
+      end
+  end.
+
+(* XMLResult(source): parse to a tree, then read the tree *)
+Definition xml_parse_tree (d : xdoc) : obs :=
+  match xml_decode_doc d with Some root => xml_reader root | None => OErr end.
+
+(* documents given to the readers that were not written by rdflib *)
+Inductive rcase := RJson (j : json) | RXml (root : pelem).
+Definition reader_obs (c : rcase) : obs :=
+  match c with RJson j => json_parse j | RXml root => xml_reader root end.
+Definition reader_spec (c : rcase) (o : obs) : bool := true.
 
 (* ------------------------------------------------------------------ *)
 (* TSV                                                                 *)
@@ -875,6 +1029,13 @@ Definition tsv_parse (doc : str) : obs :=
 (* ------------------------------------------------------------------ *)
 (* CSV                                                                 *)
 
+Fixpoint has_prefix (p s : str) : bool :=
+  match p, s with
+  | [], _ => true
+  | a :: p', b :: s' => (a =? b) && has_prefix p' s'
+  | _, [] => false
+  end.
+
 (* CSVResultSerializer.serializeTerm followed by csv.writer's str() *)
 Definition csv_serializeTerm (t : option term) : str :=
   match t with
@@ -891,31 +1052,233 @@ Definition py_get (v : str) (r : row) : option term :=
 Definition csv_serialize (vars : list str) (rows : list row) : list (list str) :=
   vars :: map (fun r => map (fun v => csv_serializeTerm (py_get v r)) vars) rows.
 
+(* --- csv.writer with the dialect the serialiser configures: delimiter comma, quotechar double quote,
+   doublequote, lineterminator CRLF, QUOTE_MINIMAL, no escapechar (Modules/_csv.c, join_append_data) --- *)
+
+(* the characters that make a field quoted: delimiter, quotechar, the characters of the lineterminator *)
+Definition csv_special (c : N) : bool := (c =? 44) || (c =? 34) || (c =? 13) || (c =? 10).
+
+Definition csv_field_body (s : str) : str := flat_map (fun c => if c =? 34 then [34; 34] else [c]) s.
+
+Definition csv_write_field (s : str) : str :=
+  if existsb csv_special s then 34 :: csv_field_body s ++ [34] else s.
+
+Fixpoint join_comma (l : list str) : str :=
+  match l with
+  | [] => []
+  | [x] => x
+  | x :: r => x ++ 44 :: join_comma r
+  end.
+
+(* writerow: a record that would be empty although it has one (empty) field is written as a quoted empty field *)
+Definition csv_writerow (fields : list str) : str :=
+  match fields with
+  | [ [] ] => [34; 34; 13; 10]
+  | _ => join_comma (map csv_write_field fields) ++ [13; 10]
+  end.
+
+Definition csv_text (table : list (list str)) : str := flat_map csv_writerow table.
+
+(* --- csv.reader for the same dialect (Modules/_csv.c, parse_process_char / Reader_iternext), fed
+   line by line by the iterator it is given --- *)
+
+(* how the source is cut into lines:
+   LUniversal  io.StringIO(text, newline=""): after LF, CR, CR LF, line ends kept
+   LLf         a text stream with newline LF (io.StringIO(text)): after LF only
+   LSplit      codecs.StreamReader (what CSVResultParser wraps a byte source in): str.splitlines *)
+Inductive lines := LUniversal | LLf | LSplit.
+
+Definition line_break (k : lines) (c : N) : bool :=
+  match k with
+  | LUniversal => (c =? 10) || (c =? 13)
+  | LLf => c =? 10
+  | LSplit => is_break c
+  end.
+
+Inductive cstate := CRec | CField | CInField | CInQuoted | CQuoteInQuoted | CEatCrnl.
+
+Record csvst := { cs_st : cstate;
+                  cs_buf : str;                  (* current field, reversed *)
+                  cs_fields : list str;          (* fields of the current record, reversed *)
+                  cs_out : list (list str);      (* finished records, reversed *)
+                  cs_cr : bool;                  (* the line iterator has just seen CR *)
+                  cs_inline : bool;              (* characters since the last end of line *)
+                  cs_err : bool }.               (* _csv.Error *)
+
+Definition cs_set (s : csvst) (st : cstate) (buf : str) (fields : list str) : csvst :=
+  {| cs_st := st; cs_buf := buf; cs_fields := fields; cs_out := cs_out s;
+     cs_cr := cs_cr s; cs_inline := cs_inline s; cs_err := cs_err s |}.
+
+(* parse_save_field *)
+Definition cs_save (s : csvst) (st : cstate) : csvst := cs_set s st [] (rev (cs_buf s) :: cs_fields s).
+(* parse_add_char *)
+Definition cs_add (s : csvst) (st : cstate) (c : N) : csvst := cs_set s st (c :: cs_buf s) (cs_fields s).
+Definition cs_goto (s : csvst) (st : cstate) : csvst := cs_set s st (cs_buf s) (cs_fields s).
+Definition cs_fail (s : csvst) : csvst :=
+  {| cs_st := cs_st s; cs_buf := cs_buf s; cs_fields := cs_fields s; cs_out := cs_out s;
+     cs_cr := cs_cr s; cs_inline := cs_inline s; cs_err := true |}.
+
+Definition is_nl (c : N) : bool := (c =? 10) || (c =? 13).
+
+(* parse_process_char for a character of the line *)
+Definition cs_char (s : csvst) (c : N) : csvst :=
+  match cs_st s with
+  | CRec =>
+      if is_nl c then cs_goto s CEatCrnl
+      else if c =? 34 then cs_goto s CInQuoted
+      else if c =? 44 then cs_save s CField
+      else cs_add s CInField c
+  | CField =>
+      if is_nl c then cs_save s CEatCrnl
+      else if c =? 34 then cs_goto s CInQuoted
+      else if c =? 44 then cs_save s CField
+      else cs_add s CInField c
+  | CInField =>
+      if is_nl c then cs_save s CEatCrnl
+      else if c =? 44 then cs_save s CField
+      else cs_add s CInField c
+  | CInQuoted =>
+      if c =? 34 then cs_goto s CQuoteInQuoted else cs_add s CInQuoted c
+  | CQuoteInQuoted =>
+      if c =? 34 then cs_add s CInQuoted c
+      else if c =? 44 then cs_save s CField
+      else if is_nl c then cs_save s CEatCrnl
+      else cs_add s CInField c
+  | CEatCrnl =>
+      if is_nl c then s else cs_fail s
+  end.
+
+(* parse_process_char(EOL) at the end of a line, then Reader_iternext returns the record when the
+   state is START_RECORD again *)
+Definition cs_eol (s : csvst) : csvst :=
+  let s1 := match cs_st s with
+            | CRec => s
+            | CField | CInField | CQuoteInQuoted => cs_save s CRec
+            | CInQuoted => s
+            | CEatCrnl => cs_goto s CRec
+            end in
+  match cs_st s1 with
+  | CRec => {| cs_st := CRec; cs_buf := []; cs_fields := []; cs_out := rev (cs_fields s1) :: cs_out s1;
+               cs_cr := false; cs_inline := false; cs_err := cs_err s1 |}
+  | _ => {| cs_st := cs_st s1; cs_buf := cs_buf s1; cs_fields := cs_fields s1; cs_out := cs_out s1;
+            cs_cr := false; cs_inline := false; cs_err := cs_err s1 |}
+  end.
+
+Definition cs_mark (s : csvst) (cr : bool) : csvst :=
+  {| cs_st := cs_st s; cs_buf := cs_buf s; cs_fields := cs_fields s; cs_out := cs_out s;
+     cs_cr := cr; cs_inline := true; cs_err := cs_err s |}.
+
+(* one character of the source: the line iterator decides where lines end *)
+Definition cs_feed (k : lines) (s : csvst) (c : N) : csvst :=
+  let s0 := if cs_cr s && negb (c =? 10) then cs_eol s else s in
+  let s1 := cs_char s0 c in
+  if (c =? 13) && line_break k 13 then cs_mark s1 true
+  else if line_break k c then cs_eol (cs_mark s1 false)
+  else cs_mark s1 false.
+
+Definition cs_init : csvst :=
+  {| cs_st := CRec; cs_buf := []; cs_fields := []; cs_out := []; cs_cr := false; cs_inline := false; cs_err := false |}.
+
+(* list(csv.reader(lines)); None = _csv.Error *)
+Definition csv_read (k : lines) (text : str) : option (list (list str)) :=
+  let s := fold_left (cs_feed k) text cs_init in
+  let s1 := if cs_inline s then cs_eol s else s in                      (* a last line without line end *)
+  let s2 := match cs_st s1 with                                           (* end of input inside a quoted field *)
+            | CInQuoted => {| cs_st := CRec; cs_buf := []; cs_fields := [];
+                              cs_out := rev (rev (cs_buf s1) :: cs_fields s1) :: cs_out s1;
+                              cs_cr := false; cs_inline := false; cs_err := cs_err s1 |}
+            | _ => s1
+            end in
+  if cs_err s2 then None else Some (rev (cs_out s2)).
+
+(* --- CSVResultParser --- *)
+
+(* convertTerm *)
+Definition csv_convert (t : str) : option term :=
+  match t with
+  | [] => None
+  | _ => if has_prefix [95; 58] t then Some (BNode t)
+         else if has_prefix (s2l "http://") t || has_prefix (s2l "https://") t then Some (IRI t)
+         else Some (Lit t None None)
+  end.
+
+(* parseRow: dict((var, val) for var, val in zip(v, converted) if val is not None) *)
+Fixpoint csv_zip (vars : list str) (cells : list str) : prow :=
+  match vars, cells with
+  | v :: vs, c :: cs => match csv_convert c with
+                        | Some t => (v, t) :: csv_zip vs cs
+                        | None => csv_zip vs cs
+                        end
+  | _, _ => []
+  end.
+
+(* CSVResultParser.parse on a source that is cut into lines as k says *)
+Definition csv_parse (k : lines) (text : str) : obs :=
+  match csv_read k text with
+  | None => OErr
+  | Some [] => OErr                                   (* next(reader): StopIteration *)
+  | Some (h :: rows) => OSel h (map (csv_zip h) rows)
+  end.
+
+Definition lines_of_src (src : N) : lines :=
+  if src =? 0 then LSplit else if src =? 1 then LUniversal else LLf.
+
+(* the csv module on its own: a table of strings written and read back, or any text read *)
+Record csvcase := { ct_src : N; ct_table : list (list str); ct_raw : option str }.
+Definition csvt_text (c : csvcase) : str :=
+  match ct_raw c with Some t => t | None => csv_text (ct_table c) end.
+Definition csvt_model (c : csvcase) : str * option (list (list str)) :=
+  (csvt_text c, csv_read (lines_of_src (ct_src c)) (csvt_text c)).
+Definition table_eqb : list (list str) -> list (list str) -> bool := list_eqb (list_eqb str_eqb).
+Definition csvt_obs_eqb (a b : str * option (list (list str))) : bool :=
+  str_eqb (fst a) (fst b) && opt_eqb table_eqb (snd a) (snd b).
+(* a field that is written unquoted and contains a character at which the line iterator ends a line *)
+Definition csv_field_cut (k : lines) (f : str) : bool :=
+  negb (existsb csv_special f) && existsb (line_break k) f.
+(* reading what was written gives the table back, unless the line iterator cuts an unquoted field *)
+Definition csvt_spec (c : csvcase) (o : str * option (list (list str))) : bool :=
+  match ct_raw c with
+  | Some _ => true
+  | None => if existsb (existsb (csv_field_cut (lines_of_src (ct_src c)))) (ct_table c) then true
+            else opt_eqb table_eqb (snd o) (Some (ct_table c))
+  end.
+
 (* ------------------------------------------------------------------ *)
 (* Cases, model observation                                            *)
 
-Inductive fmt := FJson | FXml | FTsv | FCsv.
+(* FCsv: the serialiser's text read by Python's csv.reader; FCsvP: read by rdflib's CSVResultParser *)
+Inductive fmt := FJson | FXml | FTsv | FCsv | FCsvP.
 
 Record case := { c_fmt : fmt;
                  c_ask : option bool;        (* Some b: an ASK result *)
                  c_vars : list str;
                  c_rows : list row;
                  c_style : style;            (* TSV only *)
-                 c_bytes : bool }.           (* TSV only: the source is a byte stream *)
+                 c_bytes : bool;             (* TSV only: the source is a byte stream *)
+                 c_src : N }.                (* CSV only: 0 byte stream, 1 text newline="", 2 text newline LF *)
 
 Definition model_obs (c : case) : obs :=
   match c_fmt c with
   | FJson => json_parse (json_serialize (c_ask c) (c_vars c) (c_rows c))
   | FXml => match xml_serialize (c_ask c) (c_vars c) (c_rows c) with
-            | WOk d => xml_parse d
+            | WOk d => xml_parse_tree d
             | WRefuse => ORefused
             | WFail => OErr
             end
   | FTsv => tsv_parse (render_doc (c_style c) (c_vars c) (c_rows c))
   | FCsv => match c_ask c with
             | Some _ => OErr      (* "CSVSerializer can only serialize select query results" *)
-            | None => OCells (csv_serialize (c_vars c) (c_rows c))
+            | None => match csv_read (lines_of_src (c_src c)) (csv_text (csv_serialize (c_vars c) (c_rows c))) with
+                      | Some m => OCells m
+                      | None => OErr
+                      end
             end
+  | FCsvP => match c_ask c with
+             | Some _ => OErr
+             (* since 60d20593 the parser reads the whole source, decodes it and hands csv.reader an
+                io.StringIO(data, newline=""): the kind of source no longer matters *)
+             | None => csv_parse LUniversal (csv_text (csv_serialize (c_vars c) (c_rows c)))
+             end
   end.
 
 (* ------------------------------------------------------------------ *)
@@ -969,12 +1332,38 @@ Definition spec_select (c : case) (o : obs) : bool :=
   | _ => false
   end.
 
+(* the string of a term *)
+Definition term_text (t : term) : str :=
+  match t with IRI s => s | BNode s => s | Lit lex _ _ => lex end.
+
+(* what rdflib's CSV reader gives for a row: for every variable either nothing - exactly when the
+   CSV value of the cell is empty (unbound, or a term with the empty string: CSV cannot tell them
+   apart) - or a term whose string is the CSV value of the cell; nothing else is bound *)
+Definition csvp_row_ok (vars : list str) (r : row) (p : prow) : bool :=
+  forallb (fun v => match lookup v p with
+                    | Some t => str_eqb (term_text t) (csv_value (cell v r)) && negb (is_nil (csv_value (cell v r)))
+                    | None => is_nil (csv_value (cell v r))
+                    end) vars
+  && forallb (fun k => memb str_eqb k vars) (keys p).
+
+Fixpoint csvp_rows_ok (vars : list str) (rs : list row) (ps : list prow) : bool :=
+  match rs, ps with
+  | [], [] => true
+  | r :: rs', p :: ps' => csvp_row_ok vars r p && csvp_rows_ok vars rs' ps'
+  | _, _ => false
+  end.
+
 Definition spec_ok (c : case) (o : obs) : bool :=
   match c_fmt c with
   | FCsv =>
       match o with
       | OCells m => list_eqb (list_eqb str_eqb) m
                       (c_vars c :: map (fun r => map (fun v => csv_value (cell v r)) (c_vars c)) (c_rows c))
+      | _ => false
+      end
+  | FCsvP =>
+      match o with
+      | OSel vs ps => list_eqb str_eqb vs (c_vars c) && csvp_rows_ok (c_vars c) (c_rows c) ps
       | _ => false
       end
   | _ =>
@@ -1023,8 +1412,11 @@ Definition term_tsv_ok (t : term) : bool :=
       && match dt with Some d => forallb iri_char d | None => true end
   end.
 
+(* a variable name: not empty and not starting with a question mark (what Variable() leaves alone) *)
+Definition name_ok (v : str) : bool := match v with [] => false | c :: _ => negb (c =? 63) end.
+
 Definition wf (c : case) : bool :=
-  nodup_str (c_vars c) && forallb (row_wf (c_vars c)) (c_rows c)
+  nodup_str (c_vars c) && forallb name_ok (c_vars c) && forallb (row_wf (c_vars c)) (c_rows c)
   && match c_fmt c with
      | FJson => true
      | FXml => forallb (fun r => forallb (fun kv => match snd kv with Some _ => true | None => false end) r) (c_rows c)
@@ -1033,8 +1425,14 @@ Definition wf (c : case) : bool :=
                && forallb varname_ok (c_vars c)
                && forallb (fun r => forallb term_tsv_ok (row_terms r)) (c_rows c)
      | FCsv => match c_ask c with Some _ => false | None => true end
+               && ((c_src c =? 1) || (c_src c =? 2))
+     | FCsvP => match c_ask c with Some _ => false | None => true end
      end.
 
-(* no finding is open: every trigger region of the earlier revisions of this file (F11a-F11h) has
-   been repaired in the code, see notes/C16.md *)
 Definition raw_break (c : N) : bool := is_break c && negb (c =? 10).
+
+(* no finding is open: every trigger region of the earlier revisions of this file (F11a-F11i) has been
+   repaired in the code, see notes/C16.md.  F11i was: CSVResultParser wrapped a byte source in a codecs
+   StreamReader (lines as str.splitlines cuts them, [LSplit]); an unquoted field with VT FF FS GS RS
+   U+0085 U+2028 U+2029 was cut. *)
+Definition csv_unquoted_break (f : str) : bool := negb (existsb csv_special f) && existsb is_break f.
